@@ -590,7 +590,7 @@ theorem finishChunked_agrees (w : Wire) (st : Status) (f : Fields) (sc : Bool) (
   | stall a c => exact agrees_stall w _ c
   | ok a t c =>
     simp only [finishChunked, finishChunkedSpec, Chunks.obs]
-    cases parseFields true f t with
+    cases parseFields false f t with
     | none => exact agrees_exc w .ValueError _ c
     | some f' => exact agrees_ok w (.ok st f' a.body) a.notified c sc
 
